@@ -6,6 +6,7 @@ from .. import bits as B_
 from ..astutil import norm_nc, dotted, effective, method_call
 from ..cfg import canon_test, cfg_of, fact_key, norm, walk_own
 from ..consteval import Scope, class_const, fold_in
+from ..flow import consumed_argument_rules, one_shot_callback_rules
 from ..mutate import B, M
 
 PROP = 'C14'
@@ -115,6 +116,9 @@ def check(ctx):
     ck = m.func(I2C, 'I2CElement._checksum256')
     rs = [norm(s.value) for s in walk_own(ck.node) if isinstance(s, ast.Return)]
     ctx.inst('R2', ck, 'checksum=sum%256', rs in (['reduce(lambda x, y: x + y, list(%s)) %% 256' % ck.params[1]], ['sum(%s) %% 256' % ck.params[1]]), 'checksum is the byte sum modulo 256; returns %s' % rs)
+    # the completion callback of an update is one-shot on every branch, the refused-header branch included
+    one_shot_callback_rules(ctx, 'R2', m.func(OW, 'OWElement.new_data'), '_update_finished_cb')
+    one_shot_callback_rules(ctx, 'R2', rd, '_update_finished_cb')
     for path, qual in ((I2C, 'I2CElement.update'), (OW, 'OWElement.update')):
         f = m.func(path, qual)
         st = [norm(s) for s in walk_own(f.node) if isinstance(s, ast.Assign)]
@@ -275,6 +279,8 @@ def check(ctx):
             ctx.inst('R5', nd2, 'reply-kind:' + ('geo' if geo else 'calib'), (geo or other) and dv is not None and norm(dv) == ('LighthouseBsGeometry()' if geo else 'LighthouseBsCalibration()'),
                      'addresses below CALIB_START are geometry, others calibration; decoder bound as %s' % (norm(dv) if dv is not None else None))
 
+    # the helpers around the memories: a dictionary handed to the writer is uploaded from a copy, never emptied (shared generic rule)
+    consumed_argument_rules(ctx, 'R5', [LH])
     # =========================== R6: YAML ===================================================
     for cname in ('LighthouseBsGeometry', 'LighthouseCalibrationSweep', 'LighthouseBsCalibration'):
         K = m.cls(LH, cname)
